@@ -40,7 +40,7 @@ HEADER = ('From Coq Require Import List Bool ZArith String.\n'
           'Require Import GT.PyBase GT.Data GT.ScriptSpec GT.JsonSpec GT.RenderSpec.\n'
           'Import ListNotations.\nOpen Scope Z_scope.\nOpen Scope string_scope.\n')
 MODEL_HEADER = 'Require Import GT.RenderModel.\n'
-KF_CLASSES = ['kf_C06_cross_type', 'kf_C06_zero_size']
+KF_CLASSES = ['kf_C06_cross_type', 'kf_C06_zero_size', 'kf_C06_mapping_replaced_in_list']
 LAYOUTS = [[False, False], [False, True], [True, False], [True, True]]
 DEV_KNOWN = os.path.join(common.VERIF, 'corpus', 'C06.known.json')
 
@@ -532,7 +532,10 @@ def check(tier, seed):
             'assumed to be the edit listed for it by its parent (true unless on_diff overwrote it; corr_C06 would fail)',
             'strict reading of the repaired token list is C12\'s jparse (validated against json.loads there); number tokens '
             'are opaque; the no-colour output (ansi_color=False) carries no decodable marks and is only recorded',
-            'leaves: str(object) of ints and finite floats equals json.dumps(object) (checked by corr_C06 on every case)']
+            'leaves: str(object) of ints and finite floats equals json.dumps(object) (checked by corr_C06 on every case)',
+            'the worker calls colorama.deinit() after constructing each Printer(ansi_color=True): every such Printer calls '
+            'colorama.init(), which wraps sys.stdout once more, and a few hundred renders in one process end in '
+            'RecursionError inside colorama (not part of this property; outside instrumentation only)']
         return run.finish()
     finally:
         wd.cleanup()
